@@ -390,7 +390,7 @@ def cases(draw, tier="quick"):
                 tend = math.floor(y_days[-1]) + draw(st.integers(1, 5))
             else:
                 tend = elig[min(len(elig) - 1, bi + need - 1 + draw(st.integers(0, 10)))]
-            folds = {"training-set": [math.floor(y_days[0]) - draw(st.integers(0, 3)), b - 1], "test-set": [b, tend]}
+            folds = {"training-set": [math.floor(min(y_days[0], b - 1)) - draw(st.integers(0, 3)), b - 1], "test-set": [b, tend]}
             train_ok = sum(1 for d in elig[safe:bi] if d <= b - 1) >= need
             fold = draw(st.sampled_from(["test-set", "test-set", "test-set", "training-set"])) if train_ok else "test-set"
             if draw(st.integers(0, 2)) == 0:
